@@ -266,13 +266,7 @@ int KSI_CTX_new(KSI_CTX **context) {
 		res = KSI_OUT_OF_MEMORY;
 		goto cleanup;
 	}
-	/* Init error stack. */
-	ctx->errors_size = KSI_ERR_STACK_LEN;
-	ctx->errors = KSI_malloc(sizeof(KSI_ERR) * ctx->errors_size);
-	if (ctx->errors == NULL) {
-		res = KSI_OUT_OF_MEMORY;
-		goto cleanup;
-	}
+	ctx->errors = NULL;
 	ctx->errors_count = 0;
 	ctx->publicationsFile = NULL;
 	ctx->publicationsFileCachedAt = 0;
@@ -291,6 +285,14 @@ int KSI_CTX_new(KSI_CTX **context) {
 	ctx->cleanupFnList = NULL;
 	ctx->globalObjList = NULL;
 	ctx->registerGlobalObject = registerGlobalObject;
+
+	/* Init error stack. */
+	ctx->errors_size = KSI_ERR_STACK_LEN;
+	ctx->errors = KSI_malloc(sizeof(KSI_ERR) * ctx->errors_size);
+	if (ctx->errors == NULL) {
+		res = KSI_OUT_OF_MEMORY;
+		goto cleanup;
+	}
 
 	KSI_ERR_clearErrors(ctx);
 
